@@ -51,7 +51,7 @@ type Cfg struct {
 
 // Item is one element of a history.
 type Item struct {
-	T string `json:"t"` // boot | step | stop
+	T string `json:"t"` // boot | step | stop | tamper
 	// crash: the process dies after K atomic datastore writes of this boot/step (-1 = no crash)
 	Crash bool `json:"crash,omitempty"`
 	K     int  `json:"k,omitempty"`
@@ -62,10 +62,11 @@ type Item struct {
 	Txs     []int  `json:"txs,omitempty"` // transaction pool ids
 	Ts      int64  `json:"ts,omitempty"`  // batch timestamp, milliseconds after the base instant
 	ExecErr bool   `json:"exec_err,omitempty"`
-	// stop
-	Torn     bool `json:"torn,omitempty"`      // the process dies while writing cache file TornFile
-	TornFile int  `json:"torn_file,omitempty"` // 0..7
-	TornLen  int  `json:"torn_len,omitempty"`  // bytes kept, taken modulo the file length (a strict prefix)
+	// stop: SaveCache, then exit; with Crash the process dies after K (0..8) of the eight cache files were
+	// renamed into place (files K.. keep their previous content, a partly written <file K>.tmp stays behind)
+	// tamper (NOT a crash): cache file TornFile is truncated in place by hand
+	TornFile int `json:"torn_file,omitempty"` // 0..7
+	TornLen  int `json:"torn_len,omitempty"`  // bytes kept, taken modulo the file length (a strict prefix)
 }
 
 // Replay is the replayable form of one case.
@@ -404,7 +405,8 @@ func (w *World) Run(idx int, it Item) (obs Obs) {
 		}
 	}()
 	start := w.DS.Len()
-	if it.Crash {
+	dsCrash := it.Crash && (it.T == "boot" || it.T == "step")
+	if dsCrash {
 		w.DS.FailAfter = start + it.K
 	}
 	var bootErr error
@@ -482,21 +484,28 @@ func (w *World) Run(idx int, it Item) (obs Obs) {
 			obs.Res = "not-running"
 			break
 		}
+		old := w.readCacheFiles()
 		if err := w.node.m.SaveCache(); err != nil {
 			w.Or.fail("save-cache-failed", err.Error())
 		}
-		if it.Torn {
-			if err := w.tearCacheFile(it.TornFile, it.TornLen); err != nil {
-				w.Or.fail("harness-tear-failed", err.Error())
+		if it.Crash {
+			if err := w.cutSaveCache(old, it.K); err != nil {
+				w.Or.fail("harness-cut-failed", err.Error())
 			}
-			w.Or.tornFiles = true
+			w.Or.cutStop = true
 		}
 		w.node = nil
 		obs.Res = "stopped"
+	case "tamper":
+		if err := w.tearCacheFile(it.TornFile, it.TornLen); err != nil {
+			w.Or.fail("harness-tear-failed", err.Error())
+		}
+		w.Or.tampered = true
+		obs.Res = "tampered"
 	default:
 		panic("bad item " + it.T)
 	}
-	if it.Crash {
+	if dsCrash {
 		// everything after the cut belongs to a process that is dead: discard it
 		w.DS.FailAfter = -1
 		w.node = nil
@@ -509,7 +518,7 @@ func (w *World) Run(idx int, it Item) (obs Obs) {
 		obs.Writes = append(obs.Writes, shapeOf(wr))
 	}
 	w.readBack(&obs)
-	if it.Crash && obs.Res == "crashed" {
+	if dsCrash && obs.Res == "crashed" {
 		w.Or.afterCrash(idx, it, obs)
 	}
 	w.Or.afterAny(idx, it, obs)
@@ -527,18 +536,60 @@ func (w *World) CacheFiles() []string {
 	return out
 }
 
-// the process died while file j was being written: files after j keep their previous content (here:
-// they were rewritten by the same SaveCache call with equal content, which is what an earlier clean
-// shutdown would have left), file j is a strict prefix of its complete content.
+func cacheIdx(j int) int { return ((j % 8) + 8) % 8 }
+
+// readCacheFiles returns the current content of the eight cache files (nil = absent).
+func (w *World) readCacheFiles() [][]byte {
+	var out [][]byte
+	for _, p := range w.CacheFiles() {
+		b, err := os.ReadFile(p)
+		if err != nil {
+			b = nil
+		} else if b == nil {
+			b = []byte{}
+		}
+		out = append(out, b)
+	}
+	return out
+}
+
+// cutSaveCache turns the result of a complete SaveCache into what a process leaves behind that died after
+// j of the eight files were renamed into place (saveMapGob: temporary file + rename): files j.. have their
+// previous content (or are absent), and the temporary file of file j holds a strict prefix of its new content.
+func (w *World) cutSaveCache(old [][]byte, j int) error {
+	files := w.CacheFiles()
+	if j < 0 {
+		j = 0
+	}
+	for i := j; i < len(files); i++ {
+		newContent, _ := os.ReadFile(files[i])
+		if old[i] == nil {
+			if err := os.Remove(files[i]); err != nil && !os.IsNotExist(err) {
+				return err
+			}
+		} else if err := os.WriteFile(files[i], old[i], 0o644); err != nil {
+			return err
+		}
+		if i == j && len(newContent) > 0 {
+			if err := os.WriteFile(files[i]+".tmp", newContent[:len(newContent)/2], 0o644); err != nil {
+				return err
+			}
+		}
+	}
+	return nil
+}
+
+// NOT a crash of the repaired code: cache file j is truncated in place to a strict prefix (an absent file
+// is created empty), as a torn in-place write would have left it before the fix.
 func (w *World) tearCacheFile(j, keep int) error {
 	files := w.CacheFiles()
-	p := files[((j%8)+8)%8]
+	p := files[cacheIdx(j)]
 	b, err := os.ReadFile(p)
-	if err != nil {
-		return err
-	}
-	if len(b) == 0 {
-		return fmt.Errorf("cache file %s is empty after SaveCache", p)
+	if err != nil || len(b) == 0 {
+		if err := os.MkdirAll(filepath.Dir(p), 0o755); err != nil {
+			return err
+		}
+		return os.WriteFile(p, []byte{}, 0o644)
 	}
 	n := ((keep % len(b)) + len(b)) % len(b)
 	return os.WriteFile(p, b[:n], 0o644)
@@ -682,7 +733,12 @@ func ItemCoq(idx int, it Item) string {
 		}
 		a = fmt.Sprintf("AStep %s %s", s, e)
 	case "stop":
-		return "IStop " + vgen.Bool(it.Torn)
+		if it.Crash {
+			return "IStop (Some " + vgen.Nat(it.K) + ")"
+		}
+		return "IStop None"
+	case "tamper":
+		return "ITamper " + vgen.Nat(cacheIdx(it.TornFile))
 	}
 	if it.Crash {
 		return fmt.Sprintf("ICrash (%s) %s", a, vgen.Nat(it.K))
@@ -691,7 +747,7 @@ func ItemCoq(idx int, it Item) string {
 }
 
 var resCode = map[string]int{"committed": 1, "skipped": 2, "e-load": 3, "e-time": 4, "e-proposer": 5, "e-exec": 6, "e-validate": 7,
-	"not-running": 8, "boot-ok": 9, "boot-fail-init": 10, "boot-fail-genesis": 11, "boot-fail-cache": 12, "crashed": 13, "stopped": 14}
+	"not-running": 8, "boot-ok": 9, "boot-fail-init": 10, "boot-fail-genesis": 11, "boot-fail-cache": 12, "crashed": 13, "stopped": 14, "tampered": 15}
 
 func shapeCoq(s string) string {
 	var n uint64
